@@ -343,7 +343,7 @@ func genC06(tier string, seed int64) (*Family, error) {
 	fam := &Family{
 		Prop: "C06", Files: map[string]string{},
 		Bounds:    map[string]interface{}{"pool": "(1,2), (2,3) and (1,3)", "requests": "<= 3 per scenario, <= 2 keys each, symbolic values", "overlap": "a second request runs while the first is blocked inside a rule"},
-		Cfg:       interp.Config{MaxSteps: 6_000_000, TrackFields: []string{"engine.Gengine.returnResult", "context.DataContext.base"}, TrackAllocs: []string{"eMsg"}},
+		Cfg:       interp.Config{MaxSteps: 6_000_000, TrackFields: []string{"engine.Gengine.returnResult", "context.DataContext.base"}, TrackAllocs: []string{"*"}},
 		Functions: []string{"engine.GenginePool).prepareWithMultiInput", "engine.GenginePool).prepare", "engine.gengineWrapper).clearInjected", "engine.GenginePool).getGengine", "engine.GenginePool).putGengineLocked", "DataContext).Del"},
 	}
 	fam.Assumptions = []string{
